@@ -389,11 +389,14 @@ def mutate(rng, x):
     if k == 'Tup':
         return Tup(*(x[1] + (C('u8'),))) if rng.random() < 0.5 or not x[1] else Tup(*x[1][:-1])
     if k == 'C':
-        c = rng.randrange(3)
+        c = rng.randrange(5)
         if c == 0:
             return C(x[1] + 'x', *x[2])
         if c == 1 and x[2]:
             return C(x[1], *x[2][:-1])
+        if c >= 3:
+            # a surplus trailing argument on the instance's side (a defaulted parameter written out)
+            return C(x[1], *(tuple(x[2]) + (Tup(C('i8')) if c == 3 else C('u8'),)))
         return C('q::' + x[1], *x[2])
     if k == 'HB':
         lts = x[1].split(',')
